@@ -130,6 +130,8 @@ def unit_kind(u):
         return "one"
     if e.has(sympy.nan) or e.has(sympy.zoo) or e.has(sympy.oo):
         return "non-finite"
+    if any(isinstance(p, sympy.Pow) and not p.exp.is_Rational for p in sympy.preorder_traversal(e)):
+        return "non-rational-exponent"
     if any(INV.get(a.name, a.name) != a.name for a in e.atoms(sympy.Symbol)):
         # a symbol the name table itself maps to a different symbol (µm → μm, uB → μB)
         return "non-canonical-symbol"
@@ -148,7 +150,27 @@ def same_float(a, b):
 
 def coeff_free(expr):
     """the expression carries no numeric coefficient (rational, float or irrational)"""
-    return not any(f.is_number for f in sympy.Mul.make_args(expr))
+    return expr == 1 or not any(f.is_number for f in sympy.Mul.make_args(expr))
+
+
+def range_ok(u):
+    """every factor's power of its scale, and the total, stay inside the normal double range:
+    outside it the scale of a re-parsed unit differs by overflow/underflow of an intermediate
+    product, which "up to rounding" does not cover"""
+    try:
+        if not (u.base_value == 0 or 1e-290 < abs(u.base_value) < 1e290):
+            return False
+        c, rest = u.expr.as_coeff_Mul()
+        if c != 0 and not (1e-290 < abs(float(c)) < 1e290):
+            return False
+        for b, p in rest.as_powers_dict().items():
+            if isinstance(b, sympy.Symbol):
+                sc = abs(float(Unit(b, registry=u.registry).base_value))
+                if sc > 0 and abs(float(p) * math.log10(sc)) > 290:
+                    return False
+        return True
+    except Exception:  # noqa: BLE001
+        return False
 
 
 def reparse(u, text):
@@ -162,9 +184,10 @@ def reparse(u, text):
         bad.append("dimensions")
     if not same_float(float(v.base_offset), float(u.base_offset)):
         bad.append("offset")
-    if not same_float(float(v.base_value), float(u.base_value)):
+    inrange = range_ok(u)
+    if inrange and not same_float(float(v.base_value), float(u.base_value)):
         bad.append("scale")
-    if not math.isnan(u.base_value) and not (v == u):
+    if inrange and not math.isnan(u.base_value) and not (v == u):
         bad.append("eq")
     if coeff_free(u.expr):
         if v.expr != u.expr:
@@ -195,6 +218,8 @@ def escape_trigger(s):
                 b, x = p.args
                 if x.free_symbols:
                     cats.add("symbolic-exponent")
+                elif not x.is_Rational and x.is_real is not True:
+                    cats.add("complex-exponent")
                 elif x.is_Rational and not x.is_Integer:
                     if b.is_Number and b.is_negative:
                         cats.add("negative-number-root")
@@ -202,7 +227,7 @@ def escape_trigger(s):
                         cats.add("negative-scale-unit-root")
     except Exception:  # noqa: BLE001
         pass
-    for c in ("negative-scale-unit-root", "negative-number-root", "symbolic-exponent"):
+    for c in ("negative-scale-unit-root", "negative-number-root", "complex-exponent", "symbolic-exponent"):
         if c in cats:
             return c
     return "other"
@@ -276,7 +301,8 @@ def do_arith(prog):
 
 
 def do_spell(variants):
-    """all spellings must give equal units with identical expressions and hashes"""
+    """all spellings must be accepted and give equal units (==, same dimensions); the parsed
+    expressions are returned for the comparison with the model"""
     out = []
     us = []
     for s in variants:
@@ -291,11 +317,11 @@ def do_spell(variants):
     for u, o in zip(us, out):
         if u is None or ref is None:
             verdicts.append(o)
-        elif not (u == ref and u.expr == ref.expr and hash(u) == hash(ref) and u.dimensions == ref.dimensions):
+        elif not (u == ref and ref == u and u.dimensions == ref.dimensions):
             verdicts.append("differs")
         else:
             verdicts.append("same")
-    return {"r": "spell", "verdicts": verdicts, "expr": exact(ref.expr) if ref is not None else None}
+    return {"r": "spell", "verdicts": verdicts, "exprs": [exact(u.expr) if u is not None else None for u in us]}
 
 
 def main():
